@@ -6,7 +6,7 @@ import numpy as np
 from hypothesis import strategies as st
 
 from ECAgent.Core import Model
-from ECAgent.Environments import DiscreteWorld, GridWorld, LineWorld, discrete_grid_pos_to_id
+from ECAgent.Environments import DiscreteWorld, GridWorld, LineWorld, discrete_grid_pos_to_id, discreteGridPosToID
 from vf.engine import Violation, InvalidCase
 from vf.fixtures import check, wone_of
 
@@ -77,6 +77,8 @@ def run_case(case):
         for y in range(eh):
             for x in range(ew):
                 cid = discrete_grid_pos_to_id(x, y, world.width, z, world.height)
+                if (x + y + z) % 5 == 1 and discreteGridPosToID(x, y, world.width, z, world.height) != cid:
+                    raise Violation("id-forms-differ", f"{case}: the deprecated discreteGridPosToID disagrees with discrete_grid_pos_to_id at {(x, y, z)}")
                 if not (isinstance(cid, int) and 0 <= cid < ncells):
                     raise Violation("id-range", f"{case}: id of {(x, y, z)} is {cid!r}, not in 0..{ncells - 1}")
                 if cid in seen:
@@ -96,7 +98,12 @@ def run_case(case):
                 calls.append({"x": x, "y": y, "z": z} if (x + y) % 2 else {"z": z, "x": x, "y": y})     # by keyword, in either order
                 for args in calls:
                     try:
-                        row = world.get_cell(**args) if isinstance(args, dict) else world.get_cell(*args)
+                        if isinstance(args, dict):
+                            row = world.get_cell(**args)
+                        elif (x + 2 * y + z) % 7 == 3:
+                            row = world.getCell(*args)          # the deprecated spelling is still an entry point
+                        else:
+                            row = world.get_cell(*args)
                     except IndexError as e:
                         raise Violation("get-cell-rejects-inrange", f"{case}: get_cell{args} raised IndexError: {e}")
                     if tuple(row["pos"]) != (x, y, z) or row["mark"] != mark((x, y, z), None):
